@@ -234,6 +234,10 @@ func updateHostsSteps(stmts []ast.Stmt) ([]string, error) {
 			emit(".publish " + lbS + " " + hsS)
 			continue
 		}
+		// the verif publish observer (no-op without the build tag) is accepted only right behind the store
+		if isCallStmt(st, "verifPublished", 2) && len(out) > 0 && strings.HasPrefix(out[len(out)-1], ".publish ") {
+			continue
+		}
 		return nil, bad(st, "statement outside the step vocabulary")
 	}
 	if deferred {
